@@ -143,6 +143,26 @@ func (e *Engine) AddContractFilesIn() error {
 //	(*io.LimitedReader).Read
 //	io.Reader.Read        -> interface method
 func (e *Engine) resolveKey(name, pkgPath string) string {
+	if i := strings.Index(name, "["); i > 0 && strings.HasSuffix(name, "]") {
+		// specialisation io.ReadFull[r:*iohelp.ErrorReader]
+		inner := name[i+1 : len(name)-1]
+		if j := strings.Index(inner, ":"); j > 0 {
+			tn := inner[j+1:]
+			stars := ""
+			for strings.HasPrefix(tn, "*") {
+				stars += "*"
+				tn = tn[1:]
+			}
+			if k := strings.LastIndex(tn, "."); k > 0 {
+				if pp := e.pkgPathByName(tn[:k]); pp != "" {
+					tn = pp + tn[k:]
+				}
+			} else if pkgPath != "" {
+				tn = pkgPath + "." + tn
+			}
+			return e.resolveKey(name[:i], pkgPath) + "[" + inner[:j] + ":" + stars + tn + "]"
+		}
+	}
 	qual := func(tn string) string {
 		if strings.Contains(tn, ".") || pkgPath == "" {
 			// expand a package *name* to its path when it is an import of a loaded package
@@ -278,4 +298,27 @@ func (e *Engine) FuncByKey(key string) *ssa.Function {
 		}
 	}
 	return nil
+}
+
+// Notes returns the assumptions noted while generating VCs for a function.
+func Notes(fs *fnState) map[string]bool {
+	if fs == nil {
+		return nil
+	}
+	return fs.notes
+}
+
+// AssumedContracts lists the contracts that are assumed rather than verified.
+func (e *Engine) AssumedContracts() []string {
+	var out []string
+	for k, fc := range e.Contracts {
+		if fc.Assumed {
+			out = append(out, k)
+		}
+	}
+	for k := range e.Iface {
+		out = append(out, "interface "+k)
+	}
+	sort.Strings(out)
+	return out
 }
